@@ -265,6 +265,36 @@ def run(ctx, rep):
             else:
                 rep.ok("C16.3", cons, "the None branch exits, rebinds the name, or every later dereference is guarded", f.loc())
     rep.analysed["none_tests"] = n_tests
+    # direct contradiction: the value is used (called, dereferenced, indexed) on the very branch where the test
+    # says it is None -- `if x is None and ..: return x(..)`
+    n_direct = 0
+    for q in ea.reachable:
+        f = ix.functions[q]
+        if isinstance(f.node, ast.Lambda):
+            continue
+        for n in walk_no_nested(f.node):
+            if not isinstance(n, (ast.If, ast.IfExp)):
+                continue
+            conj = n.test.values if isinstance(n.test, ast.BoolOp) and isinstance(n.test.op, ast.And) else [n.test]
+            for c in conj:
+                if isinstance(c, ast.Compare) and len(c.ops) == 1 and isinstance(c.ops[0], ast.Is) and isinstance(c.left, ast.Name) and isinstance(c.comparators[0], ast.Constant) and c.comparators[0].value is None:
+                    name = c.left.id
+                    body = n.body if isinstance(n, ast.If) else [n.body]
+                    n_direct += 1
+                    rebound = False
+                    bad_use = None
+                    for b in body:
+                        for m in ast.walk(b):
+                            if isinstance(m, ast.Assign) and any(isinstance(t, ast.Name) and t.id == name for t in m.targets):
+                                rebound = True
+                            if not rebound and bad_use is None:
+                                if isinstance(m, ast.Call) and isinstance(m.func, ast.Name) and m.func.id == name:
+                                    bad_use = m
+                                elif isinstance(m, (ast.Attribute, ast.Subscript)) and isinstance(m.value, ast.Name) and m.value.id == name and isinstance(m.ctx, ast.Load):
+                                    bad_use = m
+                    if bad_use is not None:
+                        rep.violation("C16.3", construct_of(f, f"none-branch-use:{name}"), f"`{ast.unparse(bad_use)[:60]}` uses `{name}` on the branch taken when `{ast.unparse(c)}`: TypeError/AttributeError instead of the intended result", f"{f.path}:{bad_use.lineno}")
+    rep.analysed["none_positive_tests"] = n_direct
 
     # ------------------------------------------------------------ C16.5
     rep.rule("C16.5", "every name read in a reachable function is bound; dotted uses of a package have a matching import", floor=100)
@@ -699,6 +729,14 @@ def run(ctx, rep):
     # ------------------------------------------------------------ C16.13
     rep.rule("C16.13", "a handler that swallows the failure of int()/float() on a program value covers every way the conversion fails (TypeError, ValueError, OverflowError)", floor=1)
     NEED = {"TypeError", "ValueError", "OverflowError"}
+    # int(x) raises OverflowError only for a non-finite float; program text cannot produce one when the lexer
+    # rejects literals that overflow (C16.19)
+    from ..lexer import extract_lexer as _xl
+    lexer_finite = False
+    for r_ in _xl(ix).rules:
+        if r_.conversion == "float" and r_.func is not None:
+            lexer_finite = any(isinstance(st_, ast.If) and any(isinstance(x_, ast.Raise) for x_ in st_.body) and ("inf" in ast.unparse(st_.test) or "isfinite" in ast.unparse(st_.test) or "isinf" in ast.unparse(st_.test)) for st_ in iter_stmts(r_.func.body))
+    rep.analysed["lexer_rejects_non_finite"] = lexer_finite
     COVER = {"Exception": NEED, "BaseException": NEED, "ArithmeticError": {"OverflowError"}, "TypeError": {"TypeError"}, "ValueError": {"ValueError"}, "OverflowError": {"OverflowError"}}
     for q in sorted(ea.reachable):
         f = ix.functions[q]
@@ -725,7 +763,7 @@ def run(ctx, rep):
             covered = set()
             for nm in builtin_handled:
                 covered |= COVER[nm]
-            need = NEED
+            need = NEED if not lexer_finite else NEED - {"OverflowError"}
             if f.cls and any(k.endswith(".Lexer") or k == "Lexer" for k in [b for c_ in ix.mro(f.cls) for b in ([c_] + list(getattr(ix.classes.get(c_), "bases", []) or []))]):
                 # a lexer rule converts the matched text: a str, so only ValueError is possible
                 need = {"ValueError"}
